@@ -43,7 +43,7 @@ def _with_agg(t):
   return t.aggregate(targets.RowSum(), input_keys=('a', 'b'), output_keys=('rs', 'rn'))
 
 
-def build_stages(case, records, names):
+def build_stages(case, records, names, shard=None):
   """Chains the program split at case['cuts'] into len(names) transforms named `names`, aggregate in the last one."""
   from ml_metrics._src.chainables import io, transform  # pylint: disable=g-import-not-at-top
   ops = case['prog']['ops']
@@ -54,20 +54,38 @@ def build_stages(case, records, names):
   for gi, (g, nm) in enumerate(zip(groups, names)):
     t = T.new(name=nm, num_threads=case.get('num_threads', 0) if gi == 0 else 0)
     if gi == 0:
-      t = t.data_source(io.SequenceDataSource(copy.deepcopy(records)))
+      src = io.SequenceDataSource(copy.deepcopy(records))
+      t = t.data_source(src if shard is None else src.shard(*shard))
     for op in g:
       t = pipegen.add_op(t, op, [])
     if gi == len(groups) - 1:
       t = _with_agg(t)
+    elif gi == 0 and case.get('mid_agg') and len(groups) >= 2 and len(set(names)) == len(names):
+      # a second aggregating stage earlier in the chain (records flow on unchanged)
+      t = t.aggregate(targets.RowSum(), input_keys='c', output_keys=('ms', 'mn'))
     chain = t if chain is None else chain.chain(t)
   return chain
+
+
+def build_stages_plain(case, records):
+  from ml_metrics._src.chainables import io, transform  # pylint: disable=g-import-not-at-top
+  t = transform.TreeTransform.new(name='P').data_source(io.SequenceDataSource(copy.deepcopy(records)))
+  for op in case['prog']['ops']:
+    t = pipegen.add_op(t, op, [])
+  return t
 
 
 def baseline(case):
   c = dict(case, cuts=[], num_threads=0)
   it = build_stages(c, case['records'], ['P']).make().iterate()
   out = list(it)
-  return out, norm_result(it.agg_result)
+  agg = norm_result(it.agg_result)
+  if case.get('mid_agg') and len(case.get('cuts', [])) >= 1 and case['strategy']['kind'] in ('stages', 'named', 'shards', 'interleaved'):
+    # reference value of the extra aggregate of the first stage: over the records that reach the end of that stage
+    first = dict(case, prog={'ops': case['prog']['ops'][:case['cuts'][0]]}, cuts=[], num_threads=0, mid_agg=False)
+    recs = list(build_stages_plain(first, case['records']).make().iterate())
+    agg['ms'], agg['mn'] = sum(int(r['c']) for r in recs), len(recs)
+  return out, agg
 
 
 def run_case(case):
@@ -115,11 +133,12 @@ def run_case(case):
   elif kind == 'shards':
     k = strat_['k']
     try:
-      t = build_stages(dict(case, cuts=[]), records, ['P'])
+      n = len(case.get('cuts', [])) + 1
+      t = build_stages(case, records, [f'S{i}' for i in range(n)])
       runner = t.make()
       got_out, states = [], []
       for i in range(k):
-        it = t.make(shard=io.ShardConfig(i, k)).iterate()
+        it = build_stages(case, records, [f'S{j}' for j in range(n)], shard=(i, k)).make().iterate()
         got_out += list(it)
         states.append(it.agg_state)
       order = strat_.get('order') or list(range(k))
@@ -147,6 +166,9 @@ def run_case(case):
     rets = [r for r in info['returned'] if isinstance(r, transform.AggregateResult)]
     check(len(rets) == 1 and len(info['returned']) == 1, 'not-exactly-one-final-aggregate', f'{what}: returned {info["returned"]!r}')
     got_agg = norm_result(rets[0].agg_result)
+    # the interleaved runner hands out the aggregate of its last stage only
+    check({'rs', 'rn'} <= set(got_agg), 'aggregate-depends-on-strategy', f'{what}: last stage returned {got_agg}')
+    want_agg = {k: v for k, v in want_agg.items() if k in got_agg}
   else:
     raise ValueError(kind)
   check(sorted(map(_canon, got_out)) == sorted(map(_canon, want_out)), 'emitted-batches-depend-on-strategy',
@@ -166,7 +188,7 @@ def _base_case(draw):
   nops = len(prog['ops'])
   ncuts = draw(st.integers(0, min(3, nops)))
   cuts = sorted(draw(st.lists(st.integers(0, nops), min_size=ncuts, max_size=ncuts)))
-  return {'prog': prog, 'records': records, 'cuts': cuts}
+  return {'prog': prog, 'records': records, 'cuts': cuts, 'mid_agg': draw(st.booleans())}
 
 
 def strat_sched(tier):
